@@ -35,6 +35,10 @@ def failure_key(case):
             if m.get("kind") in ("request", "request-tls", "proxy-plain", "tunnel-inner") and q.get("method") != "CONNECT":
                 if ((m.get("header") or {}).get("Authorization") or []) != client_auth:
                     return "client-authorization-replaced:" + str(q.get("auth_tag"))
+    if q.get("inner"):
+        return "site-credential-chosen-by-the-claimed-scheme-inside-mitm"
+    if (case.get("spec") or {}).get("upstream") == "pac2":
+        return "upstream-credential-of-another-pac-proxy-on-the-same-host"
     return "credential-misplaced:" + classify(case)
 
 
@@ -42,7 +46,8 @@ def explain(case):
     q, o = case.get("req", {}), case.get("obs", {})
     seen = [(m.get("peer"), m.get("kind"), (m.get("header") or {}).get("Authorization"),
              (m.get("header") or {}).get("Proxy-Authorization")) for m in (o.get("msgs") or [])]
-    return "%s %s headers=%s table=%s -> received (peer, kind, Authorization, Proxy-Authorization): %s" % (
+    return "%s%s %s headers=%s table=%s -> received (peer, kind, Authorization, Proxy-Authorization): %s" % (
+        "[inside MITM, target %s] " % ((q.get("abs_scheme") + "://") if q.get("abs_scheme") else "origin-form") if q.get("inner") else "",
         q.get("method"), q.get("host"), q.get("headers"), [("%s:%s" % (e["Host"], e["Port"])) for e in (case.get("spec", {}).get("table") or [])], seen)
 
 
